@@ -481,4 +481,398 @@ theorem emits_lenPrefixed {body : Enc → ERes Unit} {L : Lay} (hL : IsLayout L)
           exact hL.mono hl2 (fun iv _ _ hiv => hiv.1)
       · rw [hspec]; simp only; exact p2.canon.trans (by rw [he1])
       · rw [hspec]; simp only; exact p2.ne.trans (by rw [he1])
+/-! ### RDATA, records, questions: what the emitters leave -/
+
+def u16b (v : Nat) : Bytes := [v / 256 % 256, v % 256]
+def u32b (v : Nat) : Bytes := [v / 16777216 % 256, v / 65536 % 256, v / 256 % 256, v % 256]
+
+/-- `seqAll` of one, two, three, four steps as nested `seq` -/
+theorem emits_seqAll1 {f1 : Enc → ERes Unit} {L1 : Lay} (i1 : IsLayout L1) (h1 : Emits f1 L1) :
+    Emits (seqAll [f1]) (laySeq L1 layEmpty) := emits_seq i1 h1 emits_nothing
+
+theorem emits_seqAll2 {f1 f2 : Enc → ERes Unit} {L1 L2 : Lay} (i1 : IsLayout L1) (i2 : IsLayout L2)
+    (h1 : Emits f1 L1) (h2 : Emits f2 L2) :
+    Emits (seqAll [f1, f2]) (laySeq L1 (laySeq L2 layEmpty)) :=
+  emits_seq i1 h1 (emits_seqAll1 i2 h2)
+
+theorem emits_seqAll3 {f1 f2 f3 : Enc → ERes Unit} {L1 L2 L3 : Lay} (i1 : IsLayout L1) (i2 : IsLayout L2)
+    (i3 : IsLayout L3) (h1 : Emits f1 L1) (h2 : Emits f2 L2) (h3 : Emits f3 L3) :
+    Emits (seqAll [f1, f2, f3]) (laySeq L1 (laySeq L2 (laySeq L3 layEmpty))) :=
+  emits_seq i1 h1 (emits_seqAll2 i2 i3 h2 h3)
+
+theorem emits_seqAll4 {f1 f2 f3 f4 : Enc → ERes Unit} {L1 L2 L3 L4 : Lay} (i1 : IsLayout L1)
+    (i2 : IsLayout L2) (i3 : IsLayout L3) (i4 : IsLayout L4) (h1 : Emits f1 L1) (h2 : Emits f2 L2)
+    (h3 : Emits f3 L3) (h4 : Emits f4 L4) :
+    Emits (seqAll [f1, f2, f3, f4]) (laySeq L1 (laySeq L2 (laySeq L3 (laySeq L4 layEmpty)))) :=
+  emits_seq i1 h1 (emits_seqAll3 i2 i3 i4 h2 h3 h4)
+
+theorem emits_seqAll5 {f1 f2 f3 f4 f5 : Enc → ERes Unit} {L1 L2 L3 L4 L5 : Lay} (i1 : IsLayout L1)
+    (i2 : IsLayout L2) (i3 : IsLayout L3) (i4 : IsLayout L4) (i5 : IsLayout L5) (h1 : Emits f1 L1)
+    (h2 : Emits f2 L2) (h3 : Emits f3 L3) (h4 : Emits f4 L4) (h5 : Emits f5 L5) :
+    Emits (seqAll [f1, f2, f3, f4, f5]) (laySeq L1 (laySeq L2 (laySeq L3 (laySeq L4 (laySeq L5 layEmpty))))) :=
+  emits_seq i1 h1 (emits_seqAll4 i2 i3 i4 i5 h2 h3 h4 h5)
+
+/-- the RDATA variants covered by the round-trip proof so far -/
+def _root_.HickoryVerif.Wire.RData.proved : RData → Bool
+  | .a _ | .name _ | .mx _ _ | .srv _ _ _ _ | .null _ | .unknown _ _ => true
+  | _ => false
+
+/-- the layout `RData::emit` leaves for the covered variants -/
+def layRData : RData → Lay
+  | .a b => laySeg b
+  | .name n => layName n.labels
+  | .mx p n => laySeq (laySeg (u16b p)) (laySeq (layName n.labels) layEmpty)
+  | .srv p w port n =>
+    laySeq (laySeg (u16b p)) (laySeq (laySeg (u16b w)) (laySeq (laySeg (u16b port))
+      (laySeq (layName n.labels) layEmpty)))
+  | .null d => laySeg d
+  | .unknown _ d => laySeg d
+  | _ => fun _ _ _ _ => False
+
+/-- the names inside the covered RDATA variants are well-formed names -/
+def _root_.HickoryVerif.Wire.RData.namesWF : RData → Prop
+  | .name n => n.WF
+  | .mx _ n => n.WF
+  | .srv _ _ _ n => n.WF
+  | _ => True
+
+theorem isLayout_rdata (d : RData) (hp : d.proved = true) : IsLayout (layRData d) := by
+  cases d <;> first | (simp [RData.proved] at hp; done) | skip
+  all_goals unfold layRData
+  · exact isLayout_seg _
+  · exact isLayout_name _
+  · exact isLayout_seq (isLayout_seg _) (isLayout_seq (isLayout_name _) isLayout_empty)
+  · exact isLayout_seq (isLayout_seg _) (isLayout_seq (isLayout_seg _) (isLayout_seq (isLayout_seg _)
+      (isLayout_seq (isLayout_name _) isLayout_empty)))
+  · exact isLayout_seg _
+  · exact isLayout_seg _
+
+theorem emits_emitRData (t : Nat) (d : RData) (hp : d.proved = true) (hwf : d.namesWF) :
+    Emits (emitRData t d) (layRData d) := by
+  cases d <;> first | (simp [RData.proved] at hp; done) | skip
+  all_goals unfold emitRData layRData
+  case a b => exact emits_emitSlice b
+  case name n => exact emits_withRdataBehavior (emits_emitName n hwf) _
+  case mx p n =>
+    exact emits_withRdataBehavior (emits_seqAll2 (isLayout_seg _) (isLayout_name _) (emits_emitU16 p)
+      (emits_emitName n hwf)) _
+  case srv p w port n =>
+    exact emits_withRdataBehavior (emits_seqAll4 (isLayout_seg _) (isLayout_seg _) (isLayout_seg _)
+      (isLayout_name _) (emits_emitU16 p) (emits_emitU16 w) (emits_emitU16 port) (emits_emitName n hwf)) _
+  case null d => exact emits_emitSlice d
+  case unknown c d => exact emits_emitSlice d
+
+/-- the layout of a record -/
+def layRecord (r : Record) : Lay :=
+  laySeq (layName r.name.labels) (laySeq (laySeg (u16b r.rtype)) (laySeq (laySeg (u16b r.cls))
+    (laySeq (laySeg (u32b r.ttl))
+      (laySeq (layLen (if r.rdata.isUpdate then layEmpty else layRData r.rdata)) layEmpty))))
+
+theorem isLayout_record (r : Record) (hp : r.rdata.isUpdate = true ∨ r.rdata.proved = true) :
+    IsLayout (layRecord r) := by
+  unfold layRecord
+  refine isLayout_seq (isLayout_name _) (isLayout_seq (isLayout_seg _) (isLayout_seq (isLayout_seg _)
+    (isLayout_seq (isLayout_seg _) (isLayout_seq (isLayout_len ?_) isLayout_empty))))
+  split
+  · exact isLayout_empty
+  · rename_i hu
+    exact isLayout_rdata _ (by rcases hp with h | h; exact absurd h hu; exact h)
+
+/-- **`Record::emit` leaves the record's layout** (owner name, type, class, TTL, RDLENGTH, RDATA) and
+re-establishes the candidate-table invariant. -/
+theorem emits_emitRecord (r : Record) (hn : r.name.WF)
+    (hp : r.rdata.isUpdate = true ∨ (r.rdata.proved = true ∧ r.rdata.namesWF)) :
+    Emits (emitRecord r) (layRecord r) := by
+  unfold emitRecord layRecord
+  refine emits_seqAll5 (isLayout_name _) (isLayout_seg _) (isLayout_seg _) (isLayout_seg _)
+    (isLayout_len ?_) (emits_emitName _ hn) (emits_emitU16 _) (emits_emitU16 _) (emits_emitU32 _) ?_
+  · split
+    · exact isLayout_empty
+    · rename_i hu
+      exact isLayout_rdata _ (by rcases hp with h | h; exact absurd h hu; exact h.1)
+  · split
+    · exact emits_lenPrefixed isLayout_empty emits_nothing
+    · rename_i hu
+      have hp' : r.rdata.proved = true ∧ r.rdata.namesWF := by
+        rcases hp with h | h; exact absurd h hu; exact h
+      exact emits_lenPrefixed (isLayout_rdata _ hp'.1) (emits_emitRData _ _ hp'.1 hp'.2)
+
+/-- the layout of a question -/
+def layQuery (q : Query) : Lay :=
+  laySeq (layName q.name.labels) (laySeq (laySeg (u16b q.qtype)) (laySeq (laySeg (u16b q.qclass)) layEmpty))
+
+theorem isLayout_query (q : Query) : IsLayout (layQuery q) :=
+  isLayout_seq (isLayout_name _) (isLayout_seq (isLayout_seg _) (isLayout_seq (isLayout_seg _) isLayout_empty))
+
+theorem emits_emitQuery (q : Query) (hn : q.name.WF) : Emits (emitQuery q) (layQuery q) :=
+  emits_seqAll3 (isLayout_name _) (isLayout_seg _) (isLayout_seg _) (emits_emitName _ hn)
+    (emits_emitU16 _) (emits_emitU16 _)
+/-! ### reading the layouts back -/
+
+theorem Reads.remaining (buf : Bytes) (p : Nat) : Reads Rd.remaining buf p (buf.length - p) p :=
+  fun t => ⟨t, rfl⟩
+
+theorem Reads.index (buf : Bytes) (p : Nat) : Reads Rd.index buf p p p := fun t => ⟨t, rfl⟩
+
+theorem Reads.isEmpty (buf : Bytes) (p : Nat) : Reads Rd.isEmpty buf p (decide (buf.length - p = 0)) p :=
+  fun t => ⟨t, rfl⟩
+
+theorem Reads.attempt {α} {x : Rd α} {buf : Bytes} {p q : Nat} {a : α} (h : Reads x buf p a q) :
+    Reads (Rd.attempt x) buf p (some a) q := by
+  intro t
+  obtain ⟨t', ht⟩ := h t
+  exact ⟨t', by simp only [Rd.attempt, ht]⟩
+
+theorem Reads.splitOff {α} {inner : Rd α} {buf : Bytes} {p q n : Nat} {a : α} (hn : p + n ≤ buf.length)
+    (h : Reads inner (buf.take (p + n)) p a q) : Reads (Rd.splitOff n inner) buf p a (p + n) := by
+  intro t
+  obtain ⟨t', ht⟩ := h t
+  refine ⟨t', ?_⟩
+  simp only [Rd.splitOff]
+  rw [if_neg (by omega), if_neg (by omega), ht]
+
+theorem Reads.readVecToEnd (buf : Bytes) (p : Nat) : Reads Rd.readVecToEnd buf p (buf.drop p) buf.length :=
+  fun t => ⟨t, rfl⟩
+
+theorem u32_split (x : Nat) (h : x < 4294967296) :
+    ((x / 16777216 % 256 * 256 + x / 65536 % 256) * 256 + x / 256 % 256) * 256 + x % 256 = x := by omega
+
+theorem reads_u16_of_seg {H : Nat × Nat → Prop} {b : Bytes} {p q v : Nat} (h : laySeg (u16b v) H b p q)
+    (hv : v < 65536) : Reads Rd.readU16 b p v q := by
+  obtain ⟨h1, rfl⟩ := h
+  have := Reads.readU16 h1
+  rw [u16_split v hv] at this
+  exact this
+
+theorem reads_u32_of_seg {H : Nat × Nat → Prop} {b : Bytes} {p q v : Nat} (h : laySeg (u32b v) H b p q)
+    (hv : v < 4294967296) : Reads Rd.readU32 b p v q := by
+  obtain ⟨h1, rfl⟩ := h
+  have := Reads.readU32 h1
+  rw [u32_split v hv] at this
+  exact this
+
+theorem wf_flat_len {n : Name} (h : n.WF) : (flat n.labels).length + 1 ≤ 255 := by
+  have h2 := h.1
+  have h3 := flat_length n.labels
+  simp only [Name.encodedLen, Name.dataLen] at h2
+  omega
+
+theorem reads_name_of_lay {H : Nat × Nat → Prop} {b : Bytes} {p q : Nat} {n : Name}
+    (h : layName n.labels H b p q) (hwf : n.WF) : Reads Rd.name b p { n with fqdn := true } q :=
+  Reads.name h (wf_flat_len hwf)
+
+/-- a question reads back -/
+theorem reads_query {H : Nat × Nat → Prop} {b : Bytes} {p e : Nat} (q : Query) (hn : q.name.WF)
+    (ht : q.qtype < 65536) (hc : q.qclass < 65536) (h : layQuery q H b p e) :
+    Reads readQuery b p { q with name := { q.name with fqdn := true } } e := by
+  obtain ⟨m1, l1, m2, l2, m3, l3, l4⟩ := h
+  obtain ⟨rfl, _⟩ := l4
+  unfold readQuery
+  refine Reads.bind (reads_name_of_lay l1 hn) ?_
+  refine Reads.bind (reads_u16_of_seg l2 ht) ?_
+  refine Reads.bind (reads_u16_of_seg l3 hc) ?_
+  exact Reads.pure _ _ _
+
+/-- `RData::read` around a body that reads `rd` and consumes the (clamped) decoder to its end -/
+theorem reads_readRData {opq : Nat → Rd Bytes} {t : Nat} {buf : Bytes} {p : Nat} {rd : RData}
+    (ht : ¬ (t = 255 ∨ t = 252 ∨ t = 251)) (hp : p ≤ buf.length)
+    (h : Reads (readRDataBody opq t) buf p rd buf.length) : Reads (readRData opq t) buf p rd buf.length := by
+  unfold readRData
+  refine Reads.bind (Reads.index buf p) ?_
+  rw [if_neg ht]
+  refine Reads.bind (Reads.attempt h) ?_
+  refine Reads.bind (Reads.index buf buf.length) ?_
+  rw [if_neg (by omega)]
+  refine Reads.bind (Reads.isEmpty buf buf.length) ?_
+  simp only [Nat.sub_self, decide_true, Bool.not_true, Bool.false_eq_true, ↓reduceIte]
+  exact Reads.pure _ _ _
+
+/-- a type code that `RData::read` dispatches to `Unknown` -/
+def UnknownType (t : Nat) : Prop :=
+  t ∉ [1, 28, 65305, 5, 2, 12, 15, 6, 16, 33, 13, 10, 41, 0, 250, 37, 62, 52, 53, 44, 61, 257, 35, 64, 65,
+       255, 252, 251] ∧ isDnssec t = false
+
+/-- the record type matches the RDATA variant, and the numeric fields are in range -/
+def _root_.HickoryVerif.Wire.RData.typeOK (t : Nat) : RData → Prop
+  | .a b => t = 1 ∧ b.length = 4
+  | .name _ => t = 2 ∨ t = 5 ∨ t = 12 ∨ t = 65305
+  | .mx p _ => t = 15 ∧ p < 65536
+  | .srv p w port _ => t = 33 ∧ p < 65536 ∧ w < 65536 ∧ port < 65536
+  | .null _ => t = 10
+  | .unknown c _ => c = t ∧ UnknownType t
+  | _ => False
+
+/-- the value with every embedded name made fully qualified (what `Name::read` returns) -/
+def _root_.HickoryVerif.Wire.RData.fq : RData → RData
+  | .name n => .name { n with fqdn := true }
+  | .mx p n => .mx p { n with fqdn := true }
+  | .srv p w port n => .srv p w port { n with fqdn := true }
+  | d => d
+
+theorem drop_of_segAt_end {buf d : Bytes} {p : Nat} (h : SegAt buf p d) (he : p + d.length = buf.length) :
+    buf.drop p = d := by
+  have := h.2
+  rwa [List.take_of_length_le (by simp only [List.length_drop]; omega)] at this
+
+/-- **the RDATA decoders invert the RDATA emitters** (covered variants) -/
+theorem reads_rdataBody {H : Nat × Nat → Prop} {opq : Nat → Rd Bytes} {t : Nat} {buf : Bytes} {p : Nat}
+    (d : RData) (hp : d.proved = true) (hty : d.typeOK t) (hwf : d.namesWF)
+    (hl : layRData d H buf p buf.length) : Reads (readRDataBody opq t) buf p d.fq buf.length := by
+  cases d <;> first | (simp [RData.proved] at hp; done) | skip
+  case a b =>
+    obtain ⟨rfl, hlen⟩ := hty
+    obtain ⟨hseg, hq⟩ := hl
+    rcases b with _ | ⟨a0, _ | ⟨a1, _ | ⟨a2, _ | ⟨a3, _ | ⟨a4, r⟩⟩⟩⟩⟩ <;> simp at hlen
+    have g0 := segAt_of_getElem (i := 0) hseg rfl
+    have g1 := segAt_of_getElem (i := 1) hseg rfl
+    have g2 := segAt_of_getElem (i := 2) hseg rfl
+    have g3 := segAt_of_getElem (i := 3) hseg rfl
+    simp only [readRDataBody, ↓reduceIte]
+    refine Reads.bind (Reads.pop g0) ?_
+    refine Reads.bind (Reads.pop g1) ?_
+    refine Reads.bind (Reads.pop g2) ?_
+    refine Reads.bind (Reads.pop g3) ?_
+    have : p + 0 + 1 + 1 + 1 + 1 = buf.length := by simp at hq; omega
+    rw [← this]
+    exact Reads.pure _ _ _
+  case name n =>
+    have hbody : readRDataBody opq t = (do let n ← Rd.name; pure (.name n)) := by
+      unfold readRDataBody
+      rcases hty with rfl | rfl | rfl | rfl <;> simp
+    rw [hbody]
+    refine Reads.bind (reads_name_of_lay hl hwf) ?_
+    exact Reads.pure _ _ _
+  case mx pr n =>
+    obtain ⟨rfl, hpr⟩ := hty
+    obtain ⟨m1, l1, m2, l2, l3⟩ := hl
+    obtain ⟨rfl, _⟩ := l3
+    simp only [readRDataBody, Nat.reduceEqDiff, ↓reduceIte, or_self]
+    refine Reads.bind (reads_u16_of_seg l1 hpr) ?_
+    refine Reads.bind (reads_name_of_lay l2 hwf) ?_
+    exact Reads.pure _ _ _
+  case srv pr w port n =>
+    obtain ⟨rfl, hpr, hw, hport⟩ := hty
+    obtain ⟨m1, l1, m2, l2, m3, l3, m4, l4, l5⟩ := hl
+    obtain ⟨rfl, _⟩ := l5
+    simp only [readRDataBody, Nat.reduceEqDiff, ↓reduceIte, or_self]
+    refine Reads.bind (reads_u16_of_seg l1 hpr) ?_
+    refine Reads.bind (reads_u16_of_seg l2 hw) ?_
+    refine Reads.bind (reads_u16_of_seg l3 hport) ?_
+    refine Reads.bind (reads_name_of_lay l4 hwf) ?_
+    exact Reads.pure _ _ _
+  case null d =>
+    obtain rfl := hty
+    obtain ⟨hseg, hq⟩ := hl
+    simp only [readRDataBody, Nat.reduceEqDiff, ↓reduceIte, or_self]
+    refine Reads.bind (Reads.readVecToEnd buf p) ?_
+    rw [drop_of_segAt_end hseg hq.symm]
+    exact Reads.pure _ _ _
+  case unknown c d =>
+    obtain ⟨rfl, hu1, hu2⟩ := hty
+    obtain ⟨hseg, hq⟩ := hl
+    simp only [List.mem_cons, List.not_mem_nil, or_false, not_or] at hu1
+    obtain ⟨n1, n2, n3, n4, n5, n6, n7, n8, n9, n10, n11, n12, n13, n14, n15, n16, n17, n18, n19, n20,
+      n21, n22, n23, n24, n25, _, _, _⟩ := hu1
+    have hbody : readRDataBody opq c = (do let d ← Rd.readVecToEnd; pure (.unknown c d)) := by
+      unfold readRDataBody
+      simp [n1, n2, n3, n4, n5, n6, n7, n8, n9, n10, n11, n12, n13, n14, n15, n16, n17, n18, n19, n20,
+        n21, n22, n23, n24, n25, hu2, unmodelled]
+    rw [hbody]
+    refine Reads.bind (Reads.readVecToEnd buf p) ?_
+    rw [drop_of_segAt_end hseg hq.symm]
+    exact Reads.pure _ _ _
+
+/-- RDATA that encodes to at least one octet (RDLENGTH 0 is read as `Update0`) -/
+def _root_.HickoryVerif.Wire.RData.nonEmpty : RData → Prop
+  | .null d => d ≠ []
+  | .unknown _ d => d ≠ []
+  | _ => True
+
+theorem layRData_pos {H : Nat × Nat → Prop} {b : Bytes} {p q : Nat} (d : RData) (hp : d.proved = true)
+    (hty : ∃ t, d.typeOK t) (hne : d.nonEmpty) (hl : layRData d H b p q) : p < q := by
+  obtain ⟨t, hty⟩ := hty
+  cases d <;> first | (simp [RData.proved] at hp; done) | skip
+  case a bb => obtain ⟨_, rfl⟩ := hl; have := hty.2; omega
+  case name n => obtain ⟨F, h1, _⟩ := hl; exact h1.pos_lt_end
+  case mx pr n =>
+    obtain ⟨m1, l1, m2, l2, l3⟩ := hl
+    obtain ⟨_, rfl⟩ := l1
+    have := (isLayout_name _).bounds l2
+    obtain ⟨rfl, _⟩ := l3
+    simp [u16b] at *; omega
+  case srv pr w port n =>
+    obtain ⟨m1, l1, m2, l2, m3, l3, m4, l4, l5⟩ := hl
+    obtain ⟨_, rfl⟩ := l1
+    have := (isLayout_seg _).bounds l2
+    have := (isLayout_seg _).bounds l3
+    have := (isLayout_name _).bounds l4
+    obtain ⟨rfl, _⟩ := l5
+    simp [u16b] at *; omega
+  case null dd =>
+    obtain ⟨_, rfl⟩ := hl
+    have : dd.length ≠ 0 := fun h => hne (List.eq_nil_of_length_eq_zero h)
+    omega
+  case unknown c dd =>
+    obtain ⟨_, rfl⟩ := hl
+    have : dd.length ≠ 0 := fun h => hne (List.eq_nil_of_length_eq_zero h)
+    omega
+
+/-- the record with every name made fully qualified -/
+def _root_.HickoryVerif.Wire.Record.fq (r : Record) : Record :=
+  { r with name := { r.name with fqdn := true }, rdata := r.rdata.fq }
+
+/-- what the round-trip proof needs of a record (not OPT, not a meta type) -/
+structure RecWF (r : Record) : Prop where
+  name : r.name.WF
+  rtype : r.rtype < 65536 ∧ r.rtype ≠ T_OPT ∧ ¬ (r.rtype = 255 ∨ r.rtype = 252 ∨ r.rtype = 251)
+  cls : r.cls < 65536
+  ttl : r.ttl < 4294967296
+  data : r.rdata = .update0 r.rtype ∨
+    (r.rdata.proved = true ∧ r.rdata.typeOK r.rtype ∧ r.rdata.namesWF ∧ r.rdata.nonEmpty)
+
+/-- **`Record::read` inverts `Record::emit`** on the record's layout (covered RDATA variants). -/
+theorem reads_record {H : Nat × Nat → Prop} {opq : Nat → Rd Bytes} {buf : Bytes} {p e : Nat} (r : Record)
+    (hwf : RecWF r) (hl : layRecord r H buf p e) : Reads (readRecord opq) buf p r.fq e := by
+  obtain ⟨m1, l1, m2, l2, m3, l3, m4, l4, m5, l5, l6⟩ := hl
+  obtain ⟨rfl, _⟩ := l6
+  obtain ⟨len, hlen, hseg, hbody, rfl⟩ := l5
+  unfold readRecord
+  refine Reads.bind (reads_name_of_lay l1 hwf.name) ?_
+  refine Reads.bind (reads_u16_of_seg l2 hwf.rtype.1) ?_
+  have hcls : readClass { r.name with fqdn := true } r.rtype = Rd.readU16 := by
+    unfold readClass; rw [if_neg hwf.rtype.2.1]
+  rw [hcls]
+  refine Reads.bind (reads_u16_of_seg l3 hwf.cls) ?_
+  refine Reads.bind (reads_u32_of_seg l4 hwf.ttl) ?_
+  have hl16 : laySeg (u16b len) H buf m4 (m4 + 2) := ⟨hseg, rfl⟩
+  refine Reads.bind (reads_u16_of_seg hl16 (by omega)) ?_
+  refine Reads.bind (Reads.remaining buf (m4 + 2)) ?_
+  rcases hwf.data with hu | ⟨hpv, hty, hnw, hne⟩
+  · -- RDLENGTH 0
+    have hup : r.rdata.isUpdate = true := by rw [hu]; rfl
+    rw [if_pos hup] at hbody
+    obtain ⟨h0, hb⟩ := hbody
+    have hl0 : len = 0 := by omega
+    subst hl0
+    rw [if_neg (by omega), if_pos rfl]
+    simp only [Nat.add_zero]
+    refine Reads.pure' _ _ ?_
+    simp [Record.fq, hu, RData.fq]
+  · have hnu : ¬ r.rdata.isUpdate = true := by
+      intro h
+      cases hd : r.rdata <;> rw [hd] at h hpv <;> simp [RData.isUpdate, RData.proved] at h hpv
+    rw [if_neg hnu] at hbody
+    have hL := isLayout_rdata r.rdata hpv
+    have hb := hL.bounds hbody
+    have hpos := layRData_pos r.rdata hpv ⟨_, hty⟩ hne hbody
+    rw [if_neg (by omega), if_neg (by omega)]
+    have htr : layRData r.rdata H (buf.take (m4 + 2 + len)) (m4 + 2) (buf.take (m4 + 2 + len)).length := by
+      have : (buf.take (m4 + 2 + len)).length = m4 + 2 + len := by
+        simp only [List.length_take]; omega
+      rw [this]
+      exact hL.stable hbody (agreeOn_take _ (Nat.le_refl _) hb.2)
+    have hrd := reads_readRData (opq := opq) hwf.rtype.2.2 (by simp only [List.length_take]; omega)
+      (reads_rdataBody r.rdata hpv hty hnw htr)
+    refine Reads.bind (Reads.splitOff hb.2 hrd) ?_
+    exact Reads.pure' _ _ (by simp [Record.fq])
 end HickoryVerif.C02
